@@ -3,6 +3,7 @@ import WebrtcVerif.Base.Bytes
   Model of pkg/media/ivfwriter/ivfwriter.go and pkg/media/ivfreader/ivfreader.go — property C32
   (and C37's IVF part: the reader is modelled on ARBITRARY bytes, with an explicit `.panic` outcome
   wherever the Go code would index / slice out of range or divide by zero).
+  Writer as of the commit `fix: ivfwriter does not index an empty VP8 payload`.
 
   pion/rtp's depacketizers (codecs.VP8Packet / VP9Packet / AV1Depacketizer) are external: a packet
   reaches the model as a *descriptor* `Desc` — what the depacketizer returned for it.
@@ -103,25 +104,27 @@ def writeFrame (c : Config) (s : W) (frame : Bs) (timestamp rtpTs : Nat) : W :=
 inductive Res
   | ok (s : W)        -- returned nil
   | err (s : W)       -- returned an error
-  | panic             -- index out of range
+  | panic             -- index out of range (no branch of the code below reaches it: `writeRTP_no_panic`)
   deriving DecidableEq, Repr
+
+/-- `Payload[0] & 0x01 == 0` guarded by `len(Payload) > 0` -/
+def vp8KeyFrameBit : Bs → Bool
+  | [] => false
+  | b0 :: _ => b0.toNat % 2 == 0
 
 /-- `writeVP8` -/
 def writeVP8 (c : Config) (s : W) (p : Pkt) (timestamp : Nat) : Res :=
   match p.desc with
   | .err => .err s
   | .ok sbit _ payload =>
-    match payload with
-    | [] => .panic                                   -- vp8Packet.Payload[0] on an empty payload
-    | b0 :: _ =>
-      let isKeyFrame := b0.toNat % 2 == 0            -- (Payload[0] & 0x01) == 0
-      if !s.seenKey && !isKeyFrame then .ok s
-      else if s.cur.isEmpty && !sbit then .ok s      -- currentFrame == nil && S != 1
-      else
-        let s := { s with seenKey := true, cur := s.cur ++ payload }
-        if !p.marker then .ok s
-        else if s.cur.isEmpty then .ok s
-        else .ok { writeFrame c s s.cur timestamp p.ts with cur := [] }
+    let isKeyFrame := vp8KeyFrameBit payload         -- len(Payload) > 0 && (Payload[0] & 0x01) == 0
+    if !s.seenKey && !isKeyFrame then .ok s
+    else if s.cur.isEmpty && !sbit then .ok s        -- currentFrame == nil && S != 1
+    else
+      let s := { s with seenKey := true, cur := s.cur ++ payload }
+      if !p.marker then .ok s
+      else if s.cur.isEmpty then .ok s
+      else .ok { writeFrame c s s.cur timestamp p.ts with cur := [] }
 
 /-- `writeVP9` -/
 def writeVP9 (c : Config) (s : W) (p : Pkt) (timestamp : Nat) : Res :=
